@@ -267,7 +267,34 @@ fn plan10(seed: u64, run: u64, tier: Tier) -> Plan10 {
             tags.push("O:source-named-like-the-file".into());
         }
     }
-    let ojson = omap.to_json();
+    // round r, from a side stream (every earlier choice stays as it was): an entry of `sources` that is the empty
+    // string or `null` (bundlers write that for generated code; the composition then says source "" - with the
+    // line, column and name of the original token), and a map body that starts with the XSSI guard line `)]}'`
+    // (allowed by the source map specification; decoders strip it)
+    let mut side = rng.side(0xC10_52);
+    let mut null_source: Option<usize> = None;
+    if side.chance(1, 9) && !omap.sources.is_empty() {
+        let k = side.below(omap.sources.len());
+        omap.sources[k] = String::new();
+        omap.source_root = None;
+        if side.chance(1, 2) {
+            null_source = Some(k);
+        }
+        tags.push(format!("O:empty-source-entry{}", if null_source.is_some() { ":null" } else { "" }));
+    }
+    let xssi_guard = side.chance(1, 9);
+    let mut ojson = omap.to_json();
+    if let Some(k) = null_source {
+        if let Ok(mut v) = serde_json::from_str::<serde_json::Value>(&ojson) {
+            v["sources"][k] = serde_json::Value::Null;
+            ojson = v.to_string();
+        }
+    }
+    // what the file system / the data URL serves; `ojson` stays what the oracle composes with
+    let served = if xssi_guard { format!(")]}}'\n{}", ojson) } else { ojson.clone() };
+    if xssi_guard {
+        tags.push("O:xssi-guard-line".into());
+    }
     tags.push(format!("O:sources={},names={},root={:?},sparse={}", shape.sources, shape.names, shape.source_root, shape.sparse));
     let mut orig_map = None;
     let mut expected_open = None;
@@ -298,13 +325,13 @@ fn plan10(seed: u64, run: u64, tier: Tier) -> Plan10 {
                 "data:application/json; charset=utf-8;base64,",
             ]);
             ref_kind = if preamble.to_ascii_lowercase().contains("charset") { "inline-charset" } else { "inline" };
-            ref_text = format!("\n//# sourceMappingURL={}{}\n", preamble, b64_encode(ojson.as_bytes()));
+            ref_text = format!("\n//# sourceMappingURL={}{}\n", preamble, b64_encode(served.as_bytes()));
             orig_map = Some(ojson.clone());
         }
         3 | 4 | 5 | 6 | 7 => {
             ref_kind = "external-relative";
             let p = join(&dir, url_name);
-            fs.nodes.insert(p.clone(), FsNode::Text(ojson.clone()));
+            fs.nodes.insert(p.clone(), FsNode::Text(served.clone()));
             // a decoy at the path a CWD-relative resolution would use
             if p != url_name {
                 let decoy = mapgen::gen_orig_map(&mut rng, &program, &shape);
@@ -316,7 +343,7 @@ fn plan10(seed: u64, run: u64, tier: Tier) -> Plan10 {
         }
         8 => {
             ref_kind = "external-absolute";
-            fs.nodes.insert("/maps/abs.map".into(), FsNode::Text(ojson.clone()));
+            fs.nodes.insert("/maps/abs.map".into(), FsNode::Text(served.clone()));
             ref_text = "\n//# sourceMappingURL=/maps/abs.map\n".to_string();
             orig_map = Some(ojson.clone());
             expected_open = Some("/maps/abs.map".into());
@@ -468,7 +495,7 @@ fn plan10(seed: u64, run: u64, tier: Tier) -> Plan10 {
         }
         _ => {
             // flip a structural byte: the closing brace
-            fatal.flips = vec![(ojson.len() - 1, 1)];
+            fatal.flips = vec![(served.len() - 1, 1)];
         }
     }
     // a reader without a parent folder (file names such as "" or "/", or a reader that cannot tell)
